@@ -240,6 +240,12 @@ var leafPool = []string{
 	"mit", "apache-2.0+", "LGPL-2.1+", "LGPL-3.0-only", "CECILL-2.1", "CECILL-1.0+", "EUPL-1.2", "EUPL-1.0+",
 	"MPL-2.0-no-copyleft-exception", "MPL-1.1+", "MPL-2.0", "CC-BY-3.0", "CC-BY-2.0+", "CC-BY-NC-SA-2.5",
 	"AFL-1.1+", "AFL-3.0", "LPPL-1.3a+", "LPPL-1.3c", "LPL-1.02", "LPL-1.0+",
+	// ids outside every family, with +; reference names that differ only in case or embed id text
+	"MIT+", "ISC+", "Zlib+ WITH Bison-exception-2.2", "LicenseRef-X", "LicenseRef-acme", "LicenseRef-ACME",
+	"DocumentRef-D:LicenseRef-x", "LicenseRef-MIT-or-later", "MIT-or-later", "LicenseRef-Apache-2.0-or-later",
+	"DocumentRef-Apache-1.0-or-later:LicenseRef-GPL-2.0-or-later", "gpl-2.0-OR-LATER", "GPL-2.0-OR-LATER",
+	"GFDL-1.1-invariants-only", "GFDL-1.1-invariants-or-later", "GFDL-1.2-no-invariants-only", "GFDL-1.2-no-invariants-or-later",
+	"Apache-1.0", "Apache-1.0+", "GPL-2.0-only+", "0BSD", "GPL-3.0-only WITH 389-exception",
 }
 var simplePool = []string{"MIT", "ISC", "Apache-2.0", "BSD-3-Clause", "LicenseRef-x", "GPL-2.0-only", "Zlib", "DocumentRef-d:LicenseRef-y"}
 
@@ -251,7 +257,9 @@ func related(l string) []string {
 		base, exc = l[:i], l[i:]
 	}
 	if strings.HasPrefix(base, "LicenseRef-") || strings.HasPrefix(base, "DocumentRef-") {
-		return append(out, "LicenseRef-x", "LicenseRef-z", "DocumentRef-d:LicenseRef-x")
+		i := strings.LastIndex(base, "-")
+		return append(out, "LicenseRef-x", "LicenseRef-z", "DocumentRef-d:LicenseRef-x",
+			base[:i+1]+strings.ToUpper(base[i+1:]), base[:i+1]+strings.ToLower(base[i+1:]))
 	}
 	plain := strings.TrimSuffix(strings.TrimSuffix(strings.TrimSuffix(base, "+"), "-or-later"), "-only")
 	out = append(out, plain+exc, plain+"+"+exc, plain+"-only"+exc, strings.ToLower(plain)+exc)
@@ -272,6 +280,8 @@ func related(l string) []string {
 	}
 	if exc != "" {
 		out = append(out, plain, plain+" WITH Classpath-exception-2.0")
+	} else {
+		out = append(out, plain+" WITH Classpath-exception-2.0", plain+"-or-later", plain+"-only WITH Classpath-exception-2.0")
 	}
 	return out
 }
